@@ -5,10 +5,10 @@
          Chol _ true      (CholLinearOperator(upper=True): _matmul computes R R^T, the meaning is R^T R)
          Zero (_ :: _)    (ZeroLinearOperator with a batch shape: _matmul drops the operator's batch shape)
        both refuted in Property.v (C01_chol_upper_refuted, C01_zero_batch_refuted).
-   NOT covered (yet): Cat along a batch dimension (its [mm] is the specification, Model.spec_mm); Mul over operands whose root is
-   itself a structured operator (the model then uses the root's dense meaning); BatchRepeat over a
-   rectangular base (the branch of _matmul that relies on broadcasting: wrong whenever a batch dimension of size > 1 is
-   really repeated, finding C01-batchrepeat-rect-tiling). *)
+   NOT covered (yet): Mul over operands whose root is itself a structured operator (the model then uses the root's dense
+   meaning); BatchRepeat over a RECTANGULAR base that really tiles a batch dimension of size > 1 (the branch of _matmul
+   that relies on broadcasting is wrong exactly there, finding C01-batchrepeat-rect-tiling; without such tiling it is covered); Cat along a batch dimension with an EMPTY
+   piece (size 0 along the concatenated dimension). *)
 From Coq Require Import List ZArith Bool Arith.
 Import ListNotations.
 Require Import C01.Sums C01.Batch C01.Tensor C01.OpExpr.
@@ -22,6 +22,14 @@ Definition simple_root (e : OpExpr) : bool :=
   | _ => false
   end.
 
+(* BatchRepeat: no batch dimension of size > 1 is really repeated (only size-1 / new leading dimensions are): the case in which
+   the broadcasting branch of BatchRepeatLinearOperator._matmul (rectangular base) is right *)
+Fixpoint notile (bs rep : shape) : bool :=
+  match bs, rep with
+  | d :: bs', r :: rep' => (Nat.eqb d 1 || Nat.eqb r 1) && notile bs' rep'
+  | _, _ => true
+  end.
+
 Fixpoint coveredb (e : OpExpr) : bool :=
   match e with
   | Dense _ | UserMinimal _ | Diag _ | ConstantDiag _ _ | Identity _ _ | Toeplitz _ | Triangular _ _ => true
@@ -32,8 +40,14 @@ Fixpoint coveredb (e : OpExpr) : bool :=
   | Kron ops | KronTriangular ops _ | Sum ops | PsdSum ops | KronDiag ops => forallb coveredb ops
   | KronAddedDiag a b | SumKron a b | AddedDiag a b | LowRankRootAddedDiag a b | Matmul a b => coveredb a && coveredb b
   | ConstantMul b _ | BlockDiag b | BlockInterleaved b | SumBatch b | Masked b _ _ | Interpolated b _ _ _ _ => coveredb b
-  | Cat ops d => match d with CatBatch _ => false | _ => forallb coveredb ops end
-  | BatchRepeat b _ => coveredb b && Nat.eqb (nr (denote b)) (nc (denote b))   (* the square branch of _matmul *)
+  | Cat ops d =>
+      forallb coveredb ops &&
+      match d with      (* along a batch dimension: no empty piece *)
+      | CatBatch p => forallb (fun y => pos (nth p (bsh (denote y)) 0%nat)) ops
+      | _ => true
+      end
+  | BatchRepeat b rep =>      (* the square branch of _matmul, or the broadcasting branch without genuine tiling *)
+      coveredb b && (Nat.eqb (nr (denote b)) (nc (denote b)) || notile (bsh (denote b)) rep)
   | Mul l r => simple_root l && simple_root r
   end.
 
